@@ -332,10 +332,10 @@ pub fn families() -> Vec<Box<dyn Family>> {
             "the same G-TXT texts (and a 70 KB boring text with late rare features) handed over as SUB-SLICES starting at every address alignment 0..7 of one allocation (a scanner that reads machine words must not depend on where the input starts): all checks on each, and identical token boundaries at all eight alignments",
             false,
             8,
-            |cfg| cfg.n(4_000, 80_000),
+            |cfg| cfg.n(500, 10_000),
             |idx, cfg, out| {
                 let mut rng = Rng::for_case(cfg.seed, "c06.alignments", idx);
-                let t: Vec<u8> = if idx % 40 == 39 && !cfg.tiny {
+                let t: Vec<u8> = if idx % 250 == 249 && !cfg.tiny {
                     text_gen::long_boring_text(&mut rng, 70_000, false)
                 } else {
                     text_gen::text_pair(&mut rng, if cfg.tiny { 2 } else { 10 }, idx % 4 == 0).0
